@@ -15,7 +15,7 @@
    texts need no word broken at the width at hand; texts without any "<" are never a problem. *)
 From Coq Require Import Lia.
 From Clikit Require Import Base.Prelude Base.Res Model.Conv Model.Flags Model.Format Model.Markup Model.Wrap Model.Help.
-From Clikit Require Import Proofs.WrapLemmas Proofs.HelpLemmas Proofs.MarkupLemmas Proofs.MarkupShrinkLemmas Proofs.HelpPlainLemmas.
+From Clikit Require Import Proofs.WrapLemmas Proofs.HelpLemmas Proofs.MarkupLemmas Proofs.LiteralLemmas Proofs.MarkupShrinkLemmas Proofs.HelpPlainLemmas.
 
 (* ================= A. the effect of a message on the style stack ================= *)
 (* do_tag, the stack only *)
@@ -216,4 +216,111 @@ Proof.
   assert (elem_width_vis sty o1 ind e <= elem_width o2 ind e); [|lia].
   destruct e as [t|label text padding aligned|]; cbn [elem_width_vis elem_width]; [lia| |lia].
   pose proof (vis_of_le sty label). destruct aligned; lia.
+Qed.
+
+(* ================= C. the effect acts piecewise across an inert character (a blank, a line break) ================= *)
+Definition seq_eff (e1 e2 : stack -> res stack) (sk : stack) : res stack := do s1 <- e1 sk; e2 s1.
+Lemma segs_stack_app sty a0 : forall a b first sk,
+  segs_stack sty a0 first (a ++ b) sk =
+  (do s1 <- segs_stack sty a0 first a sk; segs_stack sty a0 (match a with [] => first | _ => false end) b s1).
+Proof.
+  induction a as [|[pre t] a IH]; intros b first sk; cbn [app segs_stack]; [reflexivity|].
+  destruct (tag_stack sty (esc_of a0 first pre) t sk) as [s1|k]; cbn [bind]; [|reflexivity].
+  rewrite IH. destruct a; reflexivity.
+Qed.
+Lemma segs_stack_later sty a0 a0' : forall r sk, segs_stack sty a0 false r sk = segs_stack sty a0' false r sk.
+Proof.
+  induction r as [|[pre t] r IH]; intros sk; cbn [segs_stack]; [reflexivity|].
+  assert (esc_of a0 false pre = esc_of a0' false pre) as -> by (destruct pre; reflexivity).
+  destruct (tag_stack sty (esc_of a0' false pre) t sk); cbn [bind]; [apply IH|reflexivity].
+Qed.
+
+(* the scanner started behind finished tags d and pending text c that is not empty and does not end with a backslash *)
+Lemma effect_glue sty a0 d c st sk : c <> [] -> ends_with_bsl c = false ->
+  segs_stack sty a0 true (l_done (glue d c st)) sk =
+  (do s1 <- segs_stack sty a0 true d sk; segs_stack sty false true (l_done st) s1).
+Proof.
+  intros Hc Ec. unfold glue, mk. destruct (l_done st) as [|[p t] r]; cbn [l_done].
+  - cbn [segs_stack]. destruct (segs_stack sty a0 true d sk); reflexivity.
+  - rewrite segs_stack_app. destruct (segs_stack sty a0 true d sk) as [s1|k]; cbn [bind]; [|reflexivity].
+    cbn [segs_stack].
+    assert (E : forall first, esc_of a0 first (c ++ p) = esc_of false true p).
+    { intros first. unfold esc_of. destruct (c ++ p) as [|x y] eqn:Ecp; [destruct c; [contradiction|discriminate]|].
+      rewrite <- Ecp, ends_app. destruct p; [exact Ec|reflexivity]. }
+    rewrite E. destruct (tag_stack sty (esc_of false true p) t s1); cbn [bind]; [apply segs_stack_later|reflexivity].
+Qed.
+
+Theorem effect_sep sty a0 a sep b sk : inert sep ->
+  effect sty a0 (a ++ sep :: b) sk = (do s1 <- effect sty a0 a sk; effect sty false b s1).
+Proof.
+  intros Hs. unfold effect. rewrite fold_left_app. cbn [fold_left]. set (sa := fold_left lex_step a lex_init).
+  rewrite (inert_step sa sep Hs), <- glue_init, glue_fold. apply effect_glue.
+  - destruct (l_cur sa); [destruct (raw_of (l_cand sa))|]; discriminate.
+  - rewrite app_assoc, ends_snoc. destruct Hs as (_ & _ & _ & Hb & _). now apply N.eqb_neq.
+Qed.
+Lemma effect_nil sty a0 sk : effect sty a0 [] sk = Ok sk.
+Proof. reflexivity. Qed.
+Lemma effect_snoc sty a0 a sep sk : inert sep -> effect sty a0 (a ++ [sep]) sk = effect sty a0 a sk.
+Proof. intros Hs. rewrite effect_sep by exact Hs. destruct (effect sty a0 a sk); reflexivity. Qed.
+Lemma effect_cons sty sep b sk : inert sep -> effect sty false (sep :: b) sk = effect sty false b sk.
+Proof. intros Hs. change (sep :: b) with ([] ++ sep :: b). now rewrite effect_sep. Qed.
+Lemma effect_inert_suffix sty a0 a : forall t sk, Forall inert t -> effect sty a0 (a ++ t) sk = effect sty a0 a sk.
+Proof.
+  induction t as [|c t IH] using rev_ind; intros sk Ht; [now rewrite app_nil_r|].
+  apply Forall_app in Ht as [Ht Hc]. inversion Hc; subst. rewrite app_assoc, effect_snoc by assumption. now apply IH.
+Qed.
+Lemma effect_inert_prefix sty : forall t b sk, Forall inert t -> effect sty false (t ++ b) sk = effect sty false b sk.
+Proof.
+  induction t as [|c t IH]; intros b sk Ht; [reflexivity|]. inversion Ht; subst. cbn [app].
+  rewrite effect_cons by assumption. now apply IH.
+Qed.
+(* blanks stripped from the end *)
+Lemma effect_rstrip sty a0 s sk : effect sty a0 (rstrip s) sk = effect sty a0 s sk.
+Proof.
+  destruct (rstrip_prefix_space s) as (t & Ht & Hs). rewrite Ht at 2. symmetry. apply effect_inert_suffix, inert_blank, Hs.
+Qed.
+(* a text without "<" *)
+Lemma effect_no_lt sty a0 m sk : no_lt m -> effect sty a0 m sk = Ok sk.
+Proof. intros H. unfold effect. pose proof (lex_no_tag m H) as E. unfold lex, lex_end in E. apply (f_equal fst) in E. cbn [fst] in E. now rewrite E. Qed.
+
+(* the lines of a wrapped text behind their prefix: the effects of the lines, one after the other *)
+Fixpoint effects (sty : styles) (ls : list str) (sk : stack) : res stack :=
+  match ls with [] => Ok sk | l :: r => do s1 <- effect sty false l sk; effects sty r s1 end.
+Lemma effect_join sty prefix : Forall inert prefix -> forall ls sk,
+  effect sty false (join_lines prefix ls) sk = effects sty ls sk.
+Proof.
+  intros Hp. induction ls as [|l r IH]; intros sk; [reflexivity|]. destruct r as [|l2 r'].
+  - cbn [join_lines effects]. destruct (effect sty false l sk); reflexivity.
+  - change (join_lines prefix (l :: l2 :: r')) with (l ++ 10%N :: prefix ++ join_lines prefix (l2 :: r')).
+    rewrite effect_sep by exact inert_nl. cbn [effects]. destruct (effect sty false l sk) as [s1|k]; cbn [bind]; [|reflexivity].
+    rewrite effect_inert_prefix by exact Hp. apply IH.
+Qed.
+
+(* ---- the text of an element ---- *)
+Lemma para_raw_effect sty W off ind vis t raw sk : elem_raw W off ind vis (EPara t) = Ok raw ->
+  exists ls, wrap t (W - 1 - Z.of_nat ind) = Ok ls /\ effect sty false raw sk = effects sty ls sk.
+Proof.
+  cbn [elem_raw]. destruct (wrap t (W - 1 - Z.of_nat ind)) as [ls|k]; cbn [bind]; [|discriminate].
+  intros H. inversion H; subst raw. exists ls. split; [reflexivity|].
+  rewrite app_assoc, effect_snoc by exact inert_nl. rewrite effect_inert_prefix by apply inert_spaces.
+  rewrite effect_rstrip. apply effect_join, inert_spaces.
+Qed.
+Lemma lab_raw_effect sty W off ind vis label text padding aligned raw sk :
+  elem_raw W off ind vis (ELab label text padding aligned) = Ok raw -> (1 <= padding)%nat -> 0 <= vis <= zlen label ->
+  let to := Z.max (if aligned then off - Z.of_nat ind else 0) (vis + Z.of_nat padding) in
+  exists ls, wrap text (W - 1 - to - Z.of_nat ind) = Ok ls /\
+    effect sty false raw sk = (do s1 <- effect sty false label sk; effects sty ls s1).
+Proof.
+  intros H Hp Hv. cbn [elem_raw] in H. cbv zeta in *.
+  set (to := Z.max (if aligned then off - Z.of_nat ind else 0) (vis + Z.of_nat padding)) in *.
+  destruct (wrap text (W - 1 - to - Z.of_nat ind)) as [ls|k]; cbn [bind] in H; [|discriminate].
+  inversion H; subst raw. clear H. exists ls. split; [reflexivity|].
+  rewrite effect_snoc by exact inert_nl. rewrite effect_rstrip. rewrite effect_inert_prefix by apply inert_spaces.
+  unfold ljust.
+  assert (exists k, Z.to_nat (to + (zlen label - vis) - zlen label) = S k) as [k ->].
+  { exists (Z.to_nat (to - vis) - 1)%nat. lia. }
+  cbn [spaces repeat]. rewrite <- app_assoc. cbn [app]. rewrite effect_sep by (apply inert_space; reflexivity).
+  destruct (effect sty false label sk) as [s1|k0]; cbn [bind]; [|reflexivity].
+  change (repeat 32%N k) with (spaces k). rewrite effect_inert_prefix by apply inert_spaces.
+  rewrite effect_rstrip. apply effect_join. apply Forall_app. split; apply inert_spaces.
 Qed.
